@@ -108,6 +108,9 @@ theorem regItem_ext (fx : Facts) (st : Nat) (p : Tab × Nat) (it : Item) (hf : f
     · rename_i hk; subst hk; rw [hx] at hy; cases hy
     · exact hy
   cases it with
+  | const x e last =>
+    simp only [freshItem, Item.declName, Option.isNone_iff_eq_none] at hf
+    exact ⟨cons_ext x _ hf, fun _ _ h => h⟩
   | var x e =>
     simp only [freshItem, Item.declName, Option.isNone_iff_eq_none] at hf
     exact ⟨cons_ext x _ hf, fun _ _ h => h⟩
@@ -143,6 +146,8 @@ theorem regItem_below (fx : Facts) (ha : fx.allocAtEnd = true) (st : Nat) (p : T
     · cases hy; exact hv
     · exact SymOk_mono h1 h2 w (h.1 y w hy)
   cases it with
+  | const x e last =>
+    exact ⟨cons_below _ _ x _ (Nat.le_refl _) (Nat.le_refl _) (by simp [SymOk]), h.2⟩
   | var x e =>
     refine ⟨cons_below _ _ x _ (Nat.le_refl _) (Nat.le_succ _) ?_, h.2⟩
     simp [SymOk, allocIdx, ha, regItem]
@@ -200,6 +205,7 @@ theorem regItem_keeps (fx : Facts) (st : Nat) (p : Tab × Nat) (it : Item) (y : 
     · rfl
     · exact h
   cases it with
+  | const x e last => exact cons_keeps x _
   | var x e => exact cons_keeps x _
   | define x e => exact cons_keeps x _
   | closure x b => exact cons_keeps x _
@@ -217,6 +223,7 @@ theorem regItem_keeps (fx : Facts) (st : Nat) (p : Tab × Nat) (it : Item) (y : 
 theorem regItem_binds (fx : Facts) (st : Nat) (p : Tab × Nat) (it : Item) (x : Name)
     (hd : it.declName = some x) : (lookup x (regItem fx st p it).1.syms).isSome = true := by
   cases it with
+  | const y e last => simp only [Item.declName, Option.some.injEq] at hd; subst hd; simp [regItem, lookup_cons]
   | var y e => simp only [Item.declName, Option.some.injEq] at hd; subst hd; simp [regItem, lookup_cons]
   | define y e => simp only [Item.declName, Option.some.injEq] at hd; subst hd; simp [regItem, lookup_cons]
   | closure y b => simp only [Item.declName, Option.some.injEq] at hd; subst hd; simp [regItem, lookup_cons]
@@ -243,6 +250,7 @@ theorem regItem_other (fx : Facts) (st : Nat) (p : Tab × Nat) (it : Item) (y : 
     rw [lookup_cons]
     simp [hx]
   cases it with
+  | const x e last => exact cons_other x _ (by simpa [Item.declName] using hd)
   | var x e => exact cons_other x _ (by simpa [Item.declName] using hd)
   | define x e => exact cons_other x _ (by simpa [Item.declName] using hd)
   | closure x b => exact cons_other x _ (by simpa [Item.declName] using hd)
@@ -363,6 +371,10 @@ theorem compileItems_split (T : Tab) (a b : List Item) : ∀ (nf : Nat) (r : Lis
 theorem compileItem_code_length (T : Tab) (nf : Nat) (it : Item) (r : List CBody × List (Nat × Act))
     (h : compileItem T nf it = some r) : r.1.length = if it.hasBody then 1 else 0 := by
   cases it with
+  | const x e last =>
+    simp only [compileItem] at h
+    split at h <;> simp at h
+    subst h; rfl
   | var x e =>
     simp only [compileItem] at h
     split at h <;> simp at h
@@ -412,6 +424,10 @@ theorem compileItem_closed {F nv : Nat} {T : Tab} (hT : TabBelow F nv T) (nf : N
     (hnf : it.hasBody = true → nf < F) (r : List CBody × List (Nat × Act)) (h : compileItem T nf it = some r) :
     (∀ b ∈ r.1, closedB F nv b = true) ∧ (∀ a ∈ r.2, closedA F nv a.2 = true) := by
   cases it with
+  | const x e last =>
+    simp only [compileItem] at h
+    split at h <;> simp at h
+    subst h; simp
   | var x e =>
     simp only [compileItem] at h
     cases hl : lookup x T.syms with
